@@ -761,6 +761,20 @@ func c01NewBreakers(m *vk.M, r *rand.Rand, tag string, n int) ([]*c01Brk, []stri
 			// make the anonymous breaker reachable for the named forms too? no: New() is unregistered by design
 		} else {
 			hb.name = fmt.Sprintf("%s#%s#%d", c01Names[r.Intn(len(c01Names))], tag, i)
+			// round 13: the second named breaker of a history differs from the first one only by letter case or
+			// by a surrounding blank. These are different names ("for every breaker name"): a registry that folds
+			// them onto one breaker makes one name's failures cut off the other.
+			if i >= 2 && len(names) > 0 {
+				prev := names[len(names)-1]
+				switch up := strings.ToUpper(prev); {
+				case up != prev && i%2 == 0 && len(tag)%2 == 1:
+					hb.name = up
+				case len(tag)%3 == 0:
+					hb.name = " " + prev
+				default:
+					hb.name = prev + " "
+				}
+			}
 			hb.md.birth = timex.Now()
 			hb.b = Get(hb.name)
 			names = append(names, hb.name)
